@@ -562,7 +562,16 @@ impl IoLoop {
             let had_data_to_write = self.inner.has_data_to_write();
 
             for event in events.iter() {
-                handle_event(self, stream, state, event)?;
+                if let Err(err) = handle_event(self, stream, state, event) {
+                    // The peer may close its socket right behind the frame that completes a
+                    // close handshake (e.g. CloseOk followed by EOF in the same read). If that
+                    // frame already brought us to the end of the connection, the failure that
+                    // followed it is the expected end of the stream, not an error.
+                    if is_done(self, state) {
+                        return Ok(());
+                    }
+                    return Err(err);
+                }
             }
 
             if is_done(self, state) {
